@@ -1,0 +1,22 @@
+//go:build verif
+
+// Contracts for answer.go (promises, futures): lock discipline and map safety (C10, C11).
+package capnp
+
+// Lock typestate only (PARTIAL): every path through Client releases every promise mutex it
+// acquired; nothing else of the function is decided.
+//@ func Future.Client -> c
+//@   props C10 C11
+//@   locktypestate
+//@   partial lock
+//@   requires f != nil && f.promise != nil && nolocks()
+//@   loop 0 "for"
+//@     invariant p != nil && onlyheld(&p.mu)
+
+// PARTIAL: only the map writes of Join are decided (moving pipelined clients to the parent must not
+// write a nil map).  Its lock discipline needs the promise chain to be acyclic and nil-free, an
+// invariant over the whole chain that is not stated here.
+//@ func Promise.Join
+//@   props C11
+//@   partial nilmap
+//@   requires p != nil && from != nil && from.f.promise != nil && from.f.promise != p
